@@ -99,6 +99,8 @@ def g_blobs(desc):
         dl = 0.02 if d is None else d
     elif top == "ldn2":
         du = 0.02 if d is None else d
+    elif top == "cdn" and d is not None:
+        dl, du = (d, 0.0) if d > 0 else (0.0, -d)
     if top == "lsn":
         return [(r0, zc, wr, wz, 1.0), (r0, zc - sep, wr, wz, 1.0)]
     if top == "usn":
